@@ -94,6 +94,7 @@ fn run_t<T: HScalar>(case: &Value) -> Value {
         }
         Ok(mut m) => {
             let mut outs = vec![];
+            let init = vec_out(&m.params());
             if let Some(calls) = case.get("calls").and_then(|c| c.as_array()) {
                 for c in calls {
                     let name = c[0].as_str().unwrap();
@@ -120,7 +121,7 @@ fn run_t<T: HScalar>(case: &Value) -> Value {
                 }
             }
             json!({"ok": true, "nparams": m.parameter_count(), "nfuncs": m.base_function_count(),
-                   "nout": m.output_len(), "names": m.parameters(), "init": vec_out(&m.params()), "calls": outs})
+                   "nout": m.output_len(), "names": m.parameters(), "init": init, "calls": outs})
         }
     }
 }
